@@ -105,14 +105,41 @@ class Acc:
 _EVAL = None
 
 
+class BlockBudget(BaseException):
+    """A block used more CPU time than any block legitimately needs (a pathologically slow library)."""
+
+
+BLOCK_CPU_BUDGET = float(os.environ.get("VERIF_BLOCK_CPU_S", "2400"))  # slowest legitimate block: a few minutes
+SLOW_STOP_S = float(os.environ.get("VERIF_SLOW_STOP_S", "900"))
+
+
+def _budget_handler(signum, frame):
+    raise BlockBudget()
+
+
 def _worker(block):
+    import signal
     acc = Acc()
     acc.block = block
     t = time.time()
     try:
+        signal.signal(signal.SIGPROF, _budget_handler)
+        signal.setitimer(signal.ITIMER_PROF, BLOCK_CPU_BUDGET)
+    except Exception:  # noqa: BLE001
+        pass
+    try:
         _EVAL(block, acc)
+    except BlockBudget:
+        # not a verdict about the property: the findings made so far are kept, the rest of the block is a stated cap
+        acc.caps.append(f"block {block!r:.80} stopped after {BLOCK_CPU_BUDGET:.0f} s of CPU time")
+        acc.extra["blocks_over_cpu_budget"] += 1
     except BaseException:  # a crash of the harness is "broken", never a violation
         return ("broken", block, traceback.format_exc())
+    finally:
+        try:
+            signal.setitimer(signal.ITIMER_PROF, 0)
+        except Exception:  # noqa: BLE001
+            pass
     if os.environ.get("VERIF_PROFILE"):
         dt = time.time() - t
         if dt > float(os.environ["VERIF_PROFILE"]):
@@ -139,6 +166,8 @@ def sweep(blocks, eval_block, acc: Acc = None, workers=None, label=""):
     ctx = mp.get_context("fork")
     # one task per worker process: every block starts from the parent's (pristine) module state, so a
     # block's verdict never depends on which blocks the same worker happened to run before
+    t_start = time.time()
+    done = 0
     with ctx.Pool(workers, maxtasksperchild=1) as pool:
         for st, blk, res in pool.imap_unordered(
             _worker, [blocks[i] for i in order], chunksize=1
@@ -147,6 +176,13 @@ def sweep(blocks, eval_block, acc: Acc = None, workers=None, label=""):
                 pool.terminate()
                 raise Broken(f"harness error in block {blk!r}:\n{res}")
             acc.merge(res)
+            done += 1
+            if acc.viol and time.time() - t_start > SLOW_STOP_S:
+                # violations are established and the run is far slower than on a tree where the property holds:
+                # stop exploring (the verdict cannot change any more), and say so
+                pool.terminate()
+                acc.caps.append(f"sweep stopped after {done} of {len(blocks)} blocks: violations found and {SLOW_STOP_S:.0f} s exceeded")
+                break
     return acc
 
 
